@@ -112,7 +112,10 @@ func (its *TransactionDatatype) BeginTransaction(
 	txCtx *TransactionContext,
 	newTxnOp bool,
 ) *TransactionContext {
-	if its.isLocked && its.txCtx == txCtx {
+	// a caller without a context never owns the running transaction: while the owner is between taking
+	// the mutex (isLocked already true) and storing its context, txCtx is still nil and a nil context
+	// passed the test, ran without the mutex and used the nil txCtx.
+	if txCtx != nil && its.isLocked && its.txCtx == txCtx {
 		return nil // called after DoTransaction() succeeds.
 	}
 	its.txCtx = its.setTransactionContextAndLock(tag)
